@@ -893,7 +893,7 @@ Qed.
 Definition not_live (st : pstate) (id : sid) : Prop :=
   match cache_lookup id (ps_cache st) with Some (Some _) => False | _ => True end.
 
-Definition req_drops (i : inst) (r : sreq) : Prop := resolve_agg (r_agg r) (i_kind i) = ASDrop.
+Definition req_drops (i : inst) (r : sreq) : Prop := resolve_agg (r_agg r) i = ASDrop.
 
 Lemma drop_compatible i r : req_drops i r -> req_compatible i r = true /\ req_akind i r = None.
 Proof. unfold req_drops, req_compatible, req_akind. intros ->. split; reflexivity. Qed.
